@@ -103,6 +103,9 @@ pub enum CaseError {
     Violation(Box<Failure>),
     /// The harness itself is broken or could not run the case: never a violation.
     Engine(String),
+    /// The case cannot decide THIS property (e.g. the set-up history already diverges from the reference model,
+    /// which is another property's concern): counted, never a violation.
+    Skip(String),
 }
 
 impl From<crate::driver::EngineError> for CaseError {
